@@ -1,5 +1,6 @@
 import ZkElGamal.Proofs.RangeLemmas
 import ZkElGamal.Proofs.Batch
+import ZkElGamal.Proofs.IppExtract
 /-!
 # C04 — batched range proofs accept only in-range commitments in well-formed contexts
 
@@ -23,11 +24,13 @@ Proved here, over the abstract instantiation:
 
 * `poly_extract`, `Epoly_eq_zero_iff` — first step of the extractor: three accepting transcripts with the
                           same `A, S, y, z, T₁, T₂` and distinct `x` open `δ•G + Σ z^{2+j}•V_j`, `T₁`, `T₂`.
+* `ipp_round_special_sound` — second step: one folding round of the inner-product argument is specially
+                          sound (four challenges with distinct squares, independent generators).
 * `challenges_some`, `verificationScalars_some`, `challengeTrace_spec` — the challenge list compared by the
                           correspondence is the verifier's own.
 
-Not proved (stated in DESIGN.md): the rest of the knowledge-soundness argument of Bulletproofs (extraction
-through the inner-product rounds, and from the aggregate opening to the individual `V_j`).
+Not proved (stated in DESIGN.md): the rest of the knowledge-soundness argument of Bulletproofs (chaining the
+rounds over a tree of transcripts, and from the aggregate opening to the individual `V_j` and their bits).
 Completeness of the aggregated prover for every admissible split is `Zk.Props.C05.Range.complete`
 (built on `Zk.Range.prove_complete` in `Proofs/RangeProve.lean`).
 -/
@@ -276,6 +279,27 @@ theorem poly_extract (B H W T1 T2 : G) (x1 x2 x3 t1 t2 t3 b1 b2 b3 : F)
       linear_combination (norm := module) -e1
     rw [hW, hT1, hT2]
     module
+
+/-- **special soundness of one folding round of the inner-product argument** (second extractor step).
+    With independent generators (`IppExtract.lin` injective: for the real generators this is the discrete-log
+    assumption), four challenges `uᵢ` with pairwise distinct squares and folded witnesses `(a'ᵢ, b'ᵢ)` satisfying
+    `P + uᵢ²•L + uᵢ⁻²•R = ⟨a'ᵢ, uᵢ⁻¹•g_L + uᵢ•g_R⟩ + ⟨b'ᵢ, uᵢ•h_L + uᵢ⁻¹•h_R⟩ + ⟨a'ᵢ,b'ᵢ⟩•Q`
+    yield `a = a₁‖a₂`, `b = b₁‖b₂` with `P = ⟨a,g⟩ + ⟨b,h⟩ + ⟨a,b⟩•Q`.
+    (Not proved: chaining the rounds over a tree of transcripts, and the step from the opened
+    aggregate to the bit decomposition of each committed value.) -/
+theorem ipp_round_special_sound {ι : Type} [Fintype ι] [DecidableEq F] (gL gR hL hR : ι → G) (Q : G)
+    (hind : Function.Injective (IppExtract.lin (F := F) gL gR hL hR Q))
+    (P L R : G) (u : Fin 4 → F) (hu0 : ∀ i, u i ≠ 0) (hsq : Function.Injective fun i => u i * u i)
+    (a' b' : Fin 4 → ι → F)
+    (hacc : ∀ i, P + (u i * u i) • L + ((u i)⁻¹ * (u i)⁻¹) • R
+      = (∑ j, a' i j • ((u i)⁻¹ • gL j + u i • gR j)) + (∑ j, b' i j • (u i • hL j + (u i)⁻¹ • hR j))
+        + (∑ j, a' i j * b' i j) • Q) :
+    ∃ a1 a2 b1 b2 : ι → F,
+      P = (∑ j, a1 j • gL j) + (∑ j, a2 j • gR j) + (∑ j, b1 j • hL j) + (∑ j, b2 j • hR j)
+        + ((∑ j, a1 j * b1 j) + ∑ j, a2 j * b2 j) • Q := by
+  obtain ⟨a1, a2, b1, b2, h⟩ := IppExtract.ipp_round_extract gL gR hL hR Q hind P L R u hu0 hsq a' b'
+    (fun i => by rw [hacc i, IppExtract.lin_folded])
+  exact ⟨a1, a2, b1, b2, h⟩
 
 /-! ## lengths (no size-hint assertion of the multiscalar multiplication can fire) -/
 
